@@ -124,7 +124,7 @@ func (w *Worker) runC05Frame(rc *simapi.RunConfig) *simapi.RunResult {
 	json.Unmarshal(rc.Extra, &ex)
 	wl := w.parseWorkload(rc.Args)
 	w.refDirty = nil
-	w.refForVisits(wl, rc.Visits) // fills the table; looked up per checker below
+	w.refForVisits(wl, rc.Visits, false) // fills the table; looked up per checker below
 	for _, d := range w.refDirty {
 		res.Violations = append(res.Violations, simapi.Violation{Class: d[0], Identity: d[0] + ":" + d[1],
 			Detail: fmt.Sprintf("%s, run alone by a fresh instance on %v (reference run), changed process-wide shared state (%s)", d[1], rc.Visits, d[0])})
@@ -261,7 +261,7 @@ func (w *Worker) runC05Frame(rc *simapi.RunConfig) *simapi.RunResult {
 func (w *Worker) runC05Switch(rc *simapi.RunConfig) *simapi.RunResult {
 	res := &simapi.RunResult{Stats: map[string]int64{}, Probes: map[string]int64{}}
 	wl := w.parseWorkload(rc.Args)
-	ref, panics := w.refForVisits(wl, rc.Visits)
+	ref, panics := w.refForVisits(wl, rc.Visits, true)
 	if len(panics) > 0 {
 		res.Verdict = "skip"
 		res.Notes = append(res.Notes, "reference panics (not judged): "+joinShort(panics, 3))
